@@ -310,11 +310,11 @@ macro_rules! visual_prog {
         });
     };
 }
-//@ prop=C19 tier=quick cost=30 fns="muxer::mp4::build_avc1_box,build_avcc_box" bound="all dims <= 65535; SPS 4 / PPS 2 symbolic bytes" unwind=40
+//@ prop=C19,C07 tier=quick cost=30 fns="muxer::mp4::build_avc1_box,build_avcc_box" bound="all dims <= 65535; SPS 4 / PPS 2 symbolic bytes" unwind=40
 visual_prog!(c19_avc1_progressive, mp4h::build_avc1_box, b"avc1", b"avcC", 111, AvcConfig::new(kani::any::<[u8; 4]>().to_vec(), kani::any::<[u8; 2]>().to_vec()));
-//@ prop=C19 tier=quick cost=30 fns="muxer::mp4::build_hvc1_box,build_hvcc_box" bound="all dims <= 65535; VPS 2 / SPS 4 / PPS 2 symbolic bytes" unwind=40
+//@ prop=C19,C07 tier=quick cost=30 fns="muxer::mp4::build_hvc1_box,build_hvcc_box" bound="all dims <= 65535; VPS 2 / SPS 4 / PPS 2 symbolic bytes" unwind=40
 visual_prog!(c19_hvc1_progressive, mp4h::build_hvc1_box, b"hvc1", b"hvcC", 140, HevcConfig::new(kani::any::<[u8; 2]>().to_vec(), kani::any::<[u8; 4]>().to_vec(), kani::any::<[u8; 2]>().to_vec()));
-//@ prop=C19 tier=quick cost=30 fns="muxer::mp4::build_vp09_box,build_vpcc_box" bound="all dims <= 65535; all Vp9Config field values" unwind=40
+//@ prop=C19,C07 tier=quick cost=30 fns="muxer::mp4::build_vp09_box,build_vpcc_box" bound="all dims <= 65535; all Vp9Config field values" unwind=40
 visual_prog!(c19_vp09_progressive, mp4h::build_vp09_box, b"vp09", b"vpcC", 102, vp9cfg());
 
 fn av1cfg(obu: Vec<u8>) -> Av1Config {
@@ -331,7 +331,7 @@ fn av1cfg(obu: Vec<u8>) -> Av1Config {
         chroma_sample_position: kani::any(),
     }
 }
-//@ prop=C19 tier=quick cost=30 fns="muxer::mp4::build_av01_box,build_av1c_box" bound="all dims <= 65535; all Av1Config field values; 3-byte OBU" unwind=40
+//@ prop=C19,C07 tier=quick cost=30 fns="muxer::mp4::build_av01_box,build_av1c_box" bound="all dims <= 65535; all Av1Config field values; 3-byte OBU" unwind=40
 visual_prog!(c19_av01_progressive, mp4h::build_av01_box, b"av01", b"av1C", 101, av1cfg(kani::any::<[u8; 3]>().to_vec()));
 
 macro_rules! visual_frag {
@@ -348,22 +348,22 @@ macro_rules! visual_frag {
         });
     };
 }
-//@ prop=C19 tier=quick cost=30 fns="fragmented::build_avc1_fmp4,build_avcc_fmp4" bound="all dims <= 65535; SPS 4 / PPS 2 symbolic bytes" unwind=40
+//@ prop=C19,C07 tier=quick cost=30 fns="fragmented::build_avc1_fmp4,build_avcc_fmp4" bound="all dims <= 65535; SPS 4 / PPS 2 symbolic bytes" unwind=40
 visual_frag!(c19_avc1_fragmented, fh::build_avc1_fmp4, b"avc1", b"avcC", 111, |c| {
     c.sps = kani::any::<[u8; 4]>().to_vec();
     c.pps = kani::any::<[u8; 2]>().to_vec();
 });
-//@ prop=C19 tier=quick cost=30 fns="fragmented::build_hvc1_fmp4,build_hvcc_fmp4" bound="all dims <= 65535; VPS 2 / SPS 4 / PPS 2 symbolic bytes" unwind=40
+//@ prop=C19,C07 tier=quick cost=30 fns="fragmented::build_hvc1_fmp4,build_hvcc_fmp4" bound="all dims <= 65535; VPS 2 / SPS 4 / PPS 2 symbolic bytes" unwind=40
 visual_frag!(c19_hvc1_fragmented, fh::build_hvc1_fmp4, b"hvc1", b"hvcC", 140, |c| {
     c.vps = Some(kani::any::<[u8; 2]>().to_vec());
     c.sps = kani::any::<[u8; 4]>().to_vec();
     c.pps = kani::any::<[u8; 2]>().to_vec();
 });
-//@ prop=C19 tier=quick cost=30 fns="fragmented::build_av01_fmp4,build_av1c_fmp4" bound="all dims <= 65535; 3-byte OBU" unwind=40
+//@ prop=C19,C07 tier=quick cost=30 fns="fragmented::build_av01_fmp4,build_av1c_fmp4" bound="all dims <= 65535; 3-byte OBU" unwind=40
 visual_frag!(c19_av01_fragmented, fh::build_av01_fmp4, b"av01", b"av1C", 100, |c| {
     c.av1_sequence_header = Some(kani::any::<[u8; 3]>().to_vec());
 });
-//@ prop=C19 tier=quick cost=30 fns="fragmented::build_vp09_fmp4,build_vpcc_fmp4" bound="all dims <= 65535; all Vp9Config values" unwind=40
+//@ prop=C19,C07 tier=quick cost=30 fns="fragmented::build_vp09_fmp4,build_vpcc_fmp4" bound="all dims <= 65535; all Vp9Config values" unwind=40
 visual_frag!(c19_vp09_fragmented, fh::build_vp09_fmp4, b"vp09", b"vpcC", 102, |c| {
     c.vp9_config = Some(vp9cfg());
 });
@@ -417,13 +417,13 @@ macro_rules! avcc_h {
         });
     };
 }
-//@ prop=C19 tier=quick cost=20 fns="muxer::mp4::build_avcc_box" bound="SPS 5 / PPS 3 symbolic bytes" unwind=12
+//@ prop=C19,C07 tier=quick cost=20 fns="muxer::mp4::build_avcc_box" bound="SPS 5 / PPS 3 symbolic bytes" unwind=12
 avcc_h!(c19_avcc_prog_5_3, 5, 3, prog);
-//@ prop=C19 tier=thorough cost=20 fns="muxer::mp4::build_avcc_box" bound="SPS 4 / PPS 1 symbolic bytes" unwind=12
+//@ prop=C19,C07 tier=thorough cost=20 fns="muxer::mp4::build_avcc_box" bound="SPS 4 / PPS 1 symbolic bytes" unwind=12
 avcc_h!(c19_avcc_prog_4_1, 4, 1, prog);
-//@ prop=C19 tier=quick cost=20 fns="fragmented::build_avcc_fmp4" bound="SPS 5 / PPS 3 symbolic bytes" unwind=12
+//@ prop=C19,C07 tier=quick cost=20 fns="fragmented::build_avcc_fmp4" bound="SPS 5 / PPS 3 symbolic bytes" unwind=12
 avcc_h!(c19_avcc_frag_5_3, 5, 3, frag);
-//@ prop=C19 tier=thorough cost=20 fns="fragmented::build_avcc_fmp4" bound="SPS 4 / PPS 1 symbolic bytes" unwind=12
+//@ prop=C19,C07 tier=thorough cost=20 fns="fragmented::build_avcc_fmp4" bound="SPS 4 / PPS 1 symbolic bytes" unwind=12
 avcc_h!(c19_avcc_frag_4_1, 4, 1, frag);
 
 /// ISO/IEC 14496-15 §8.3.3.1 HEVCDecoderConfigurationRecord: fixed 23-byte head,
@@ -451,7 +451,7 @@ fn check_hvcc_array<const N: usize>(v: &[u8], o: usize, nal_type: u8, nal: &[u8;
     }
     o + 5 + N
 }
-//@ prop=C19 tier=quick cost=30 fns="muxer::mp4::build_hvcc_box,HevcConfig accessors" bound="VPS 2 / SPS 5 / PPS 3 symbolic bytes" unwind=12
+//@ prop=C19,C07 tier=quick cost=30 fns="muxer::mp4::build_hvcc_box,HevcConfig accessors" bound="VPS 2 / SPS 5 / PPS 3 symbolic bytes" unwind=12
 h!(c19_hvcc_progressive, 12, {
     let vps: [u8; 2] = kani::any();
     let sps: [u8; 5] = kani::any();
@@ -465,7 +465,7 @@ h!(c19_hvcc_progressive, 12, {
     assert!(o == b.len(), "record ends with the last array");
     core::mem::forget(c);
 });
-//@ prop=C19 tier=quick cost=30 fns="fragmented::build_hvcc_fmp4" bound="VPS 2 / SPS 5 / PPS 3 symbolic bytes" unwind=12
+//@ prop=C19,C07 tier=quick cost=30 fns="fragmented::build_hvcc_fmp4" bound="VPS 2 / SPS 5 / PPS 3 symbolic bytes" unwind=12
 h!(c19_hvcc_fragmented, 12, {
     let vps: [u8; 2] = kani::any();
     let sps: [u8; 5] = kani::any();
@@ -503,7 +503,7 @@ fn check_av1c_head(v: &[u8], obu_len: usize) {
     assert!(v[8] == 0x81, "marker 1 + version 1");
     assert!(v[11] & 0xe0 == 0, "reserved 000");
 }
-//@ prop=C19 tier=quick cost=30 fns="muxer::mp4::build_av1c_box" bound="all Av1Config values with profile<=7, level<=31, tier<=1, csp<=3; 3-byte OBU" unwind=8
+//@ prop=C19,C07 tier=quick cost=30 fns="muxer::mp4::build_av1c_box" bound="all Av1Config values with profile<=7, level<=31, tier<=1, csp<=3; 3-byte OBU" unwind=8
 h!(c19_av1c_progressive, 8, {
     let obu: [u8; 3] = kani::any();
     let c = av1cfg(obu.to_vec());
@@ -519,7 +519,7 @@ h!(c19_av1c_progressive, 8, {
     assert!(b[12] == obu[0] && b[13] == obu[1] && b[14] == obu[2], "configOBUs");
     core::mem::forget(c);
 });
-//@ prop=C19 tier=quick cost=20 fns="fragmented::build_av1c_fmp4" bound="3-byte OBU" unwind=8
+//@ prop=C19,C07 tier=quick cost=20 fns="fragmented::build_av1c_fmp4" bound="3-byte OBU" unwind=8
 h!(c19_av1c_fragmented, 8, {
     let obu: [u8; 3] = kani::any();
     let mut c = frag_cfg_h264(1, 1, 1);
@@ -550,7 +550,7 @@ fn check_vpcc(v: &[u8], c: &Vp9Config) {
     assert!(v[14] >> 4 == c.bit_depth && v[14] & 1 == c.full_range_flag);
     assert!(be16(v, 18) == 0, "codecIntializationDataSize");
 }
-//@ prop=C19 tier=quick cost=20 fns="muxer::mp4::build_vpcc_box,fragmented::build_vpcc_fmp4" bound="all Vp9Config values" unwind=8
+//@ prop=C19,C07 tier=quick cost=20 fns="muxer::mp4::build_vpcc_box,fragmented::build_vpcc_fmp4" bound="all Vp9Config values" unwind=8
 h!(c19_vpcc_both, 8, {
     let c = vp9cfg();
     let b = snap::<16>(&mp4h::build_vpcc_box(&c));
@@ -594,7 +594,7 @@ fn check_audio_entry(v: &[u8], fourcc: &[u8; 4], channels: u16, rate: u32, cfg: 
     assert!((be32(v, 32) as u64) == (rate as u64) << 16, "samplerate 16.16");
     assert!(box_is(v, 36, v.len() - 36, cfg), "codec box fills the rest");
 }
-//@ prop=C19 tier=quick cost=30 fns="muxer::mp4::build_mp4a_box,build_esds_box,build_audio_specific_config" bound="all u16 channel counts, all sample rates < 65536, 6 AAC profiles" unwind=12
+//@ prop=C19,C07 tier=quick cost=30 fns="muxer::mp4::build_mp4a_box,build_esds_box,build_audio_specific_config" bound="all u16 channel counts, all sample rates < 65536, 6 AAC profiles" unwind=12
 h!(c19_mp4a, 12, {
     let rate: u32 = kani::any();
     kani::assume(rate < 65536);
@@ -621,11 +621,11 @@ fn opus_entry_body(ch: u16) {
     assert!(be32(&b, d + 12) == 48000, "InputSampleRate");
     assert!(b[d + 18] == 0, "ChannelMappingFamily 0 for mono/stereo");
 }
-//@ prop=C19 tier=quick cost=30 fns="muxer::mp4::build_opus_box,build_dops_box,OpusConfig::with_channels" bound="stereo, any configured sample rate" unwind=12
+//@ prop=C19,C07 tier=quick cost=30 fns="muxer::mp4::build_opus_box,build_dops_box,OpusConfig::with_channels" bound="stereo, any configured sample rate" unwind=12
 h!(c19_opus_entry_stereo, 12, {
     opus_entry_body(2);
 });
-//@ prop=C19 tier=thorough cost=30 fns="muxer::mp4::build_opus_box,build_dops_box,OpusConfig::with_channels" bound="mono, any configured sample rate" unwind=12
+//@ prop=C19,C07 tier=thorough cost=30 fns="muxer::mp4::build_opus_box,build_dops_box,OpusConfig::with_channels" bound="mono, any configured sample rate" unwind=12
 h!(c19_opus_entry_mono, 12, {
     opus_entry_body(1);
 });
